@@ -12,6 +12,29 @@ SCALARS = {
 ENUM = [("A", 0), ("B", 5), ("C", -6)]
 
 
+class U8Str(str):
+    """a value of a UTF-8 string slice (plain str values are UTF-16 slices)"""
+
+
+def utf8_of_js_string(v):
+    """what a JS string becomes as UTF-8 (TextEncoder semantics: an unpaired surrogate is written as U+FFFD)"""
+    return v.encode("utf-16-le", "surrogatepass").decode("utf-16-le", "replace").encode("utf-8")
+
+
+def slice_enc(v):
+    """-> (content bytes, element size) of a slice value"""
+    if isinstance(v, U8Str):
+        return utf8_of_js_string(v), 1
+    if isinstance(v, str):
+        return v.encode("utf-16-le", "surrogatepass"), 2
+    return bytes(v), 1
+
+
+def slice_len(v):
+    b, e = slice_enc(v)
+    return len(b) // e
+
+
 class FT:
     """field type"""
 
@@ -44,6 +67,8 @@ OP = FT("op", "&'a Op", "u32", "ptr", [0x1000, 0xFFFFFFF0])
 OOP = FT("oop", "Option<&'a Op>", "u32", "ptr", [None, 0x2000])
 SL8 = FT("sl8", "DiplomatSlice<'a, u8>", "[u32; 2]", "slice", [[], [1, 2, 3]])
 # UTF-16 views are unvalidated: an unpaired surrogate and a leading U+FEFF are ordinary code units and must survive
+# UTF-8 string slice: the JS side measures the UTF-8 length itself (lone surrogates become U+FFFD, 3 bytes)
+ST8 = FT("st8", "DiplomatStrSlice<'a>", "[u32; 2]", "slice", [U8Str(""), U8Str("a\u00e9\u20ac\U0001d11e"), U8Str("a\ud800"), U8Str("\ud800\u00e9"), U8Str("\udc00z")])
 S16 = FT("s16", "DiplomatStr16Slice<'a>", "[u32; 2]", "slice", ["", "aé€", "\ufeffab", "a\ud800", "\udc00\ud83d"])
 IN1 = FT("in1", "In1", "In1", "struct", None, inner=[("x", U8)])
 IN2 = FT("in2", "In2", "In2", "struct", None, inner=[("a", U8), ("b", U32)])
@@ -60,7 +85,7 @@ OU64 = FT("ou64", "DiplomatOption<u64>", "DiplomatOption<u64>", "option", [None,
 OEN = FT("oen", "DiplomatOption<En>", "DiplomatOption<En>", "option", [None, 2], inner=EN)
 OIN2 = FT("oin2", "DiplomatOption<In2>", "DiplomatOption<In2>", "option", [None, (7, 0xDEADBEEF)], inner=IN2)
 
-ALPHABET = [U8, I16, U32, U64, F32, F64, BOOL, CHAR, USIZE, EN, OP, OOP, SL8, S16, IN1, IN2, IN3, OU8, OU16, OU64, OEN, OIN2, OBOOL]
+ALPHABET = [U8, I16, U32, U64, F32, F64, BOOL, CHAR, USIZE, EN, OP, OOP, SL8, S16, ST8, IN1, IN2, IN3, OU8, OU16, OU64, OEN, OIN2, OBOOL]
 ALPHA12 = [U8, I16, U32, U64, F64, BOOL, EN, OP, SL8, IN2, OU16, OIN2]
 ALPHA6 = [U8, I16, U32, U64, IN2, OU8]
 NESTED = {"In1": IN1, "In2": IN2, "In3": IN3}
@@ -213,7 +238,7 @@ def place(ft, v, off, lay, out, slices):
             out[off + i] = b
     elif ft.kind == "slice":
         slices.append((off, ft, v))
-        n = len(v) if not isinstance(v, str) else len(v.encode("utf-16-le", "surrogatepass")) // 2
+        n = slice_len(v)
         for i, b in enumerate(struct.pack("<I", n)):
             out[off + 4 + i] = b
     elif ft.kind == "struct":
@@ -255,7 +280,7 @@ def scalars_of(ft, v, base, lay, acc):
         acc.append((base, sz, al, ft.kind, v))
     elif ft.kind == "slice":
         acc.append((base, 4, 4, "sliceptr", v))
-        n = len(v) if not isinstance(v, str) else len(v.encode("utf-16-le", "surrogatepass")) // 2
+        n = slice_len(v)
         acc.append((base + 4, 4, 4, "u32", n))
     elif ft.kind == "struct":
         l = lay[ft.oracle]
@@ -288,7 +313,7 @@ def _slots(ft, v, lay):
     if ft.kind in SCALARS:
         return [{"v": js_arg(ft.kind, v), "k": ft.kind}]
     if ft.kind == "slice":
-        n = len(v) if not isinstance(v, str) else len(v.encode("utf-16-le", "surrogatepass")) // 2
+        n = slice_len(v)
         return [{"sliceptr": v}, {"v": n, "k": "u32"}]
     if ft.kind == "struct":
         l = lay[ft.oracle]
